@@ -179,6 +179,19 @@ def report (s : SDs) : Summ :=
 /-- the property's oracle -/
 def truth (l : List Val) : Summ := { mn := nanmin l, mx := nanmax l, mean := nanmean l }
 
+/-- what `ds[feat][:]` hands out when the file says `experiment:event count = count`: today's
+`H5ScalarEvent` exposes the WHOLE HDF5 dataset; the count (which may be smaller or larger than the
+number of stored events: partial appends, interrupted or foreign recordings) does not enter -/
+def exposed (_count : Nat) (s : SDs) : List Val := s.data
+
+/-- a reader that hands out only the first `count` stored events (seeded change C20-12) … -/
+def exposedTrimmed (count : Nat) (s : SDs) : List Val := s.data.take count
+
+/-- … and still seeds its summary cache from the stored attributes (written over ALL stored events) -/
+def reportTrimmed (count : Nat) (s : SDs) : Summ :=
+  { mn := s.mn.getD (nanmin (exposedTrimmed count s)), mx := s.mx.getD (nanmax (exposedTrimmed count s)),
+    mean := s.mean.getD (nanmean (exposedTrimmed count s)) }
+
 /-- `sel m xs`: the events of `xs` where the Boolean filter `m` is true -/
 def sel : List Bool → List Val → List Val
   | true :: m, x :: xs => x :: sel m xs
